@@ -101,18 +101,29 @@ theorem bleInit_eq : BleDev.init = (do
   unfold BleDev.init bleDefaultsM
   simp only [bind_assoc]
 
+/-- an SPI transaction other than ACTIVATE keeps the accessibility of the feature registers -/
+theorem spiStep_vis (s : DrvState) (c : Nat) (d : Bytes) (hw : s.Wf) (hc : c ≠ 0x50) :
+    (s.spiStep (c :: d)).cfg.featureVisible = s.cfg.featureVisible := by
+  unfold Radio.featureVisible
+  rw [spiStep_activated s c d hw hc, spiStep_cfg _ _ hw]
+  show ((s.cfg.xfer (c :: d)).1.plus || s.cfg.activated) = _
+  rw [Radio.xfer_plus]
+
 /-- **`FakeBLE.__init__`** on an object whose embedded driver has the constructor's CONFIG shadow, in
-any world whose radio exists, has the chip's register shape and holds bytes in RX_ADDR_P2..5: no
-exception; the embedded shadows are in range; pipe 0 is the user's (the BLE access address), open. -/
+any world whose radio exists, has the chip's register shape and holds bytes in RX_ADDR_P2..5 — plus or
+non-plus chip, feature registers locked or unlocked: no exception; the embedded shadows are in range;
+pipe 0 is the user's (the BLE access address), open; the embedded `_is_plus_variant` is the chip's
+variant and the feature registers are accessible afterwards. -/
 theorem ble_init_spec (b0 : BleDev) (w : World) (hrid : b0.rf.rid < w.radios.length) (hc : b0.rf.config = 0x0E)
     (hb : ∀ x ∈ (w.radio b0.rf.rid).rxAddrN, x < 256) (hs : RadioShape (w.radio b0.rf.rid)) :
     ∃ s', execB BleDev.init ⟨b0, w⟩ = (.ok (), s') ∧ InRange s'.b.rf ∧ s'.b.rf.rid = b0.rf.rid ∧
       s'.w.radios.length = w.radios.length ∧ s'.b.rf.pipe0ReadAddr = some BLE_ADDR ∧
-      s'.b.rf.openPipes &&& 1 ≠ 0 ∧ s'.b.rf.config &&& 1 = 0 := by
+      s'.b.rf.openPipes &&& 1 ≠ 0 ∧ s'.b.rf.config &&& 1 = 0 ∧
+      s'.b.rf.isPlus = (w.radio b0.rf.rid).plus ∧ (s'.w.radio b0.rf.rid).featureVisible = true := by
   rw [bleInit_eq]
   -- RF24.__init__
   have hw0 : (DrvState.mk b0.rf w).Wf := hrid
-  obtain ⟨s1, hex1, hre1, hok1⟩ := init_spec ⟨b0.rf, w⟩ hw0 hc hb
+  obtain ⟨s1, hex1, hre1, hok1, hip1, _, hvis1, _⟩ := init_variant_spec ⟨b0.rf, w⟩ hw0 hc hb
   obtain ⟨hrid1, hwf1, _⟩ := hre1.frame hw0
   have hsh1 := (hre1.shape hw0 hs).1
   have hlen1 := hre1.length
@@ -134,7 +145,11 @@ theorem ble_init_spec (b0 : BleDev) (w : World) (hrid : b0.rf.rid < w.radios.len
   have hop2 : d2.openPipes = 0 := by rw [← hd2]; exact hop1
   have hc2 : d2.config = 0x10 := by rw [← hd2]; show s1.d.config &&& 3 ||| 0x10 = 0x10; rw [hc1]; decide
   -- __enter__
-  obtain ⟨s3, hex3, hd3, hrid3, hwf3, _, hlen3, _, _, _, _, hvis3, hhid3⟩ := enter_spec ⟨d2, s1.w⟩ hw2 hr2 hsh2
+  have hcfg2 : (DrvState.mk d2 s1.w).cfg = s1.cfg := by unfold DrvState.cfg; rw [hrid2]
+  obtain ⟨s3, hex3, hd3, hrid3, hwf3, _, hlen3, _, hpl3, hact3, _, hvis3, hhid3⟩ := enter_spec ⟨d2, s1.w⟩ hw2 hr2 hsh2
+  have hv3 : s3.cfg.featureVisible = true := by
+    unfold Radio.featureVisible at hvis1 ⊢
+    rw [hpl3, hact3, hcfg2]; exact hvis1
   have hen3 : s3.cfg.enRxAddr = d2.openPipes := by
     cases hv : (DrvState.mk d2 s1.w).cfg.featureVisible with
     | true => exact congrArg CfgRegs.enRxAddr (hvis3 hv)
@@ -149,8 +164,9 @@ theorem ble_init_spec (b0 : BleDev) (w : World) (hrid : b0.rf.rid < w.radios.len
   generalize s3.d.status = st3 at hd3
   -- open_rx_pipe(0, access address)
   have hp03 : s3.d.pipes0.length = 5 := by rw [hd3]; exact hr2.2.2.2.2.2.2.2.2.2.2.1
-  obtain ⟨s4, hex4, hre4, hd4, _⟩ := openRxPipe_0 BLE_ADDR s3 hwf3 (by decide) hp03 (by rw [hen3, hop2]; decide)
+  obtain ⟨s4, hex4, hre4, hd4, hcfg4⟩ := openRxPipe_0 BLE_ADDR s3 hwf3 (by decide) hp03 (by rw [hen3, hop2]; decide)
   rw [hen3, hop2] at hd4
+  have hv4 : s4.cfg.featureVisible = true := by rw [hcfg4]; exact hv3
   have hb4 : execB (BleDev.liftRf (openRxPipe 0 [0x71, 0x91, 0x7d, 0x6b, 0]))
       { b := { bleDefaults { b0 with rf := s1.d } with rf := s3.d }, w := s3.w } =
       (.ok (), { b := { bleDefaults { b0 with rf := s1.d } with rf := s4.d }, w := s4.w }) :=
@@ -164,7 +180,8 @@ theorem ble_init_spec (b0 : BleDev) (w : World) (hrid : b0.rf.rid < w.radios.len
     exact ⟨a0, a1, a2, by dsimp only; decide, a4, a5, a6, a7, a8, a9, putAddr_length _ _ a10 (by decide), a11, a12, a13, a14⟩
   obtain ⟨hrid4, hwf4, _⟩ := hre4.mono.frame hwf3
   -- __exit__
-  obtain ⟨s5, hex5, hd5, hrid5, hwf5, _, hlen5, _⟩ := exit_spec s4 hwf4 hr4.1
+  obtain ⟨s5, hex5, hd5, hrid5, hwf5, _, hlen5, hcfg5⟩ := exit_spec s4 hwf4 hr4.1
+  have hv5 : s5.cfg.featureVisible = true := by rw [hcfg5]; exact hv4
   have hb5 : execB BleDev.exit { b := { bleDefaults { b0 with rf := s1.d } with rf := s4.d }, w := s4.w } =
       (.ok (), { b := { bleDefaults { b0 with rf := s1.d } with rf := s5.d }, w := s5.w }) := by
     unfold BleDev.exit
@@ -184,7 +201,13 @@ theorem ble_init_spec (b0 : BleDev) (w : World) (hrid : b0.rf.rid < w.radios.len
   generalize hd6 : ({ s5.d with channel := 2 } : Rf24) = d6
   have hex6 := exec_regWrite_nat 5 2 ⟨d6, s5.w⟩ (by decide) (by decide)
   rw [execB_liftRf_ok _ _ _ _ hex6]
-  refine ⟨_, rfl, ?_, ?_, ?_, ?_, ?_, ?_⟩
+  have hrid6 : d6.rid = b0.rf.rid := by
+    rw [← hd6]
+    show s5.d.rid = _
+    rw [hrid5, hrid4, hrid3]
+    show d2.rid = _
+    rw [hrid2, hrid1]
+  refine ⟨_, rfl, ?_, ?_, ?_, ?_, ?_, ?_, ?_, ?_⟩
   all_goals simp only [spiStep_dN]
   · obtain ⟨a0, a1, a2, a3, a4, a5, a6, a7, a8, a9, a10, a11, a12, a13, a14⟩ := hr5
     rw [← hd6]
@@ -214,5 +237,23 @@ theorem ble_init_spec (b0 : BleDev) (w : World) (hrid : b0.rf.rid < w.radios.len
     show ((d2.config ||| 2) &&& 0x7D) &&& 1 = 0
     rw [hc2]
     decide
+  · rw [← hd6]
+    show s5.d.isPlus = _
+    rw [hd5, hd4]
+    show s3.d.isPlus = _
+    rw [hd3]
+    show d2.isPlus = _
+    rw [← hd2]
+    exact hip1
+  · have hw6 : (DrvState.mk d6 s5.w).Wf := by show d6.rid < _; rw [hrid6, ← hrid1, ← hrid2, ← hrid3, ← hrid4, ← hrid5]; exact hwf5
+    have hc6 : (DrvState.mk d6 s5.w).cfg = s5.cfg := by
+      unfold DrvState.cfg; rw [hrid6, ← hrid1, ← hrid2, ← hrid3, ← hrid4, ← hrid5]
+    have := spiStep_vis (DrvState.mk d6 s5.w) (0x20 ||| 5) [2] hw6 (by decide)
+    rw [hc6, hv5] at this
+    have hc7 : ((DrvState.mk d6 s5.w).spiStep [0x20 ||| 5, 2]).cfg =
+        (((DrvState.mk d6 s5.w).spiStep [0x20 ||| 5, 2]).w.radio b0.rf.rid).cfgOf := by
+      unfold DrvState.cfg; rw [spiStep_rid]; show ((_ : World).radio d6.rid).cfgOf = _; rw [hrid6]
+    rw [hc7] at this
+    exact this
 
 end Nrf
